@@ -76,6 +76,8 @@ Inductive rowec :=
 | ECTable.                (* the table's container (same pointer) *)
 
 Record rowst := mkRow { r_ec : rowec; r_in_table : bool; r_sep : bool }.
+(* what NewRow(), NewRowWithCapacity(n) and t.NewRowSizedFor() all return: no
+   container, not in a table (NewRowSizedFor reads only t.NColumns()) *)
 Definition fresh_row := mkRow ECNil false false.
 
 Record tstate := mkT {
